@@ -71,6 +71,7 @@ type Term struct {
 
 // Ctx owns the hash-cons table.
 type Ctx struct {
+	rangeMemo map[*Term][3]int64
 	varsMemo map[*Term][]int
 	tab   map[string]*Term
 	n     int
@@ -123,6 +124,12 @@ func (c *Ctx) mk(t *Term) *Term {
 		if !t.Args[0].IsConst() && !t.Args[1].IsConst() {
 			t.NL = true
 		} else if k := t.Args[1]; k.IsConst() && k.Val&(k.Val-1) != 0 && t.W > 8 {
+			t.NL = true
+		}
+	case OAdd, OSub:
+		// wide linear arithmetic over several unknowns: the integer back end
+		// decides it at once where bit-blasting struggles
+		if t.W >= 32 && !t.Args[0].IsConst() && !t.Args[1].IsConst() {
 			t.NL = true
 		}
 	}
@@ -539,6 +546,48 @@ func (c *Ctx) cmp(op Op, a, b *Term) *Term {
 	if a == b {
 		return c.Bool(op == OUle || op == OSle)
 	}
+	// interval reasoning for ite-trees of constants (+/- constants)
+	if (op == OSlt || op == OSle) && (a.IsConst() || b.IsConst()) {
+		if a.IsConst() {
+			if lo, hi, ok := c.srange(b, 0); ok {
+				k := a.Signed()
+				if op == OSlt {
+					if k < lo {
+						return c.True
+					}
+					if k >= hi {
+						return c.False
+					}
+				} else {
+					if k <= lo {
+						return c.True
+					}
+					if k > hi {
+						return c.False
+					}
+				}
+			}
+		} else {
+			if lo, hi, ok := c.srange(a, 0); ok {
+				k := b.Signed()
+				if op == OSlt {
+					if hi < k {
+						return c.True
+					}
+					if lo >= k {
+						return c.False
+					}
+				} else {
+					if hi <= k {
+						return c.True
+					}
+					if lo > k {
+						return c.False
+					}
+				}
+			}
+		}
+	}
 	// comparisons of zext(x) against constants: reduce width (helps folding)
 	if a.Op == OZext && b.IsConst() {
 		in := a.Args[0]
@@ -903,4 +952,57 @@ func mergeSorted(a, b []int) []int {
 	out = append(out, a[i:]...)
 	out = append(out, b[j:]...)
 	return out
+}
+
+// srange returns signed bounds of t when they follow from its shape alone
+// (ite-trees with constant leaves, plus/minus small constants). Bounds are
+// only reported when no wrap-around is possible.
+func (c *Ctx) srange(t *Term, depth int) (lo, hi int64, ok bool) {
+	if t.W != 64 || depth > 64 {
+		return 0, 0, false
+	}
+	if c.rangeMemo == nil {
+		c.rangeMemo = map[*Term][3]int64{}
+	}
+	if r, hit := c.rangeMemo[t]; hit {
+		return r[0], r[1], r[2] == 1
+	}
+	defer func() {
+		o := int64(0)
+		if ok {
+			o = 1
+		}
+		c.rangeMemo[t] = [3]int64{lo, hi, o}
+	}()
+	const lim = int64(1) << 40
+	switch t.Op {
+	case OConst:
+		v := t.Signed()
+		return v, v, true
+	case OIte:
+		l1, h1, ok1 := c.srange(t.Args[1], depth+1)
+		l2, h2, ok2 := c.srange(t.Args[2], depth+1)
+		if !ok1 || !ok2 {
+			return 0, 0, false
+		}
+		if l2 < l1 {
+			l1 = l2
+		}
+		if h2 > h1 {
+			h1 = h2
+		}
+		return l1, h1, true
+	case OAdd:
+		l1, h1, ok1 := c.srange(t.Args[0], depth+1)
+		l2, h2, ok2 := c.srange(t.Args[1], depth+1)
+		if !ok1 || !ok2 || l1 < -lim || h1 > lim || l2 < -lim || h2 > lim {
+			return 0, 0, false
+		}
+		return l1 + l2, h1 + h2, true
+	case OZext:
+		if t.Args[0].W <= 32 {
+			return 0, int64(mask(t.Args[0].W)), true
+		}
+	}
+	return 0, 0, false
 }
